@@ -58,6 +58,20 @@ static NOMIN: LazyLock<Converter> = LazyLock::new(|| {
     c
 });
 
+/// a renamed-units converter in which the key `min` belongs to a unit that is not a time unit (the minim, a
+/// volume) while `minute` / `minutes` name the minute: the time units are known, so durations written in them read
+static MINIM: LazyLock<Converter> = LazyLock::new(|| {
+    let text = SPANISH_UNITS
+        .replace("{ names = [\"minuto\", \"minutos\"], symbols = [\"min\"], ratio = 60 }", "{ names = [\"minute\", \"minutes\", \"minuto\"], symbols = [\"mn\"], ratio = 60 }")
+        .replace("best = [\"s\", \"min\", \"h\", \"d\"]", "best = [\"s\", \"mn\", \"h\", \"d\"]")
+        .replace("units = [ { names = [\"litro\"], symbols = [\"l\"], ratio = 1 } ]", "units = [ { names = [\"litro\"], symbols = [\"l\"], ratio = 1 }, { names = [\"minim\"], symbols = [\"min\"], ratio = 0.0000616 } ]");
+    assert!(text.contains("minim") && text.contains("\"mn\""), "MINIM units text");
+    let f: UnitsFile = toml::from_str(&text).expect("minim units toml");
+    let c = ConverterBuilder::new().with_units_file(f).expect("add").finish().expect("finish");
+    assert!(c.find_unit("min").is_some_and(|u| u.physical_quantity == cooklang::convert::PhysicalQuantity::Volume) && c.find_unit("minutes").is_some());
+    c
+});
+
 static SPANISH: LazyLock<Converter> = LazyLock::new(|| {
     let f: UnitsFile = toml::from_str(SPANISH_UNITS).expect("spanish units toml");
     ConverterBuilder::new().with_units_file(f).expect("add").finish().expect("finish")
@@ -69,6 +83,7 @@ fn time_units(conv: u8) -> &'static [(&'static str, u64)] {
         0 => &[("s", 1), ("sec", 1), ("secs", 1), ("second", 1), ("seconds", 1), ("m", 60), ("min", 60), ("minute", 60), ("minutes", 60), ("h", 3600), ("hour", 3600), ("hours", 3600), ("d", 86400), ("day", 86400), ("days", 86400)],
         1 => &[("s", 1), ("sec", 1), ("secs", 1), ("second", 1), ("seconds", 1), ("min", 60), ("mins", 60), ("minute", 60), ("minutes", 60), ("h", 3600), ("hour", 3600), ("hours", 3600), ("d", 86400), ("day", 86400), ("days", 86400)],
         2 => &[("s", 1), ("segundo", 1), ("segundos", 1), ("min", 60), ("minuto", 60), ("minutos", 60), ("h", 3600), ("hora", 3600), ("horas", 3600), ("d", 86400), ("día", 86400), ("días", 86400)],
+        4 => &[("s", 1), ("segundo", 1), ("segundos", 1), ("mn", 60), ("minute", 60), ("minutes", 60), ("minuto", 60), ("h", 3600), ("hora", 3600), ("horas", 3600), ("d", 86400), ("día", 86400), ("días", 86400)],
         // converter without a minutes unit: the pairs are written in its length units and must be refused
         // (`m` itself is left out: `5m` is the documented compact form)
         _ => &[("km", 0), ("cm", 0), ("metro", 0), ("kilometro", 0), ("centimetro", 0)],
@@ -80,16 +95,18 @@ fn conv_of(c: u8) -> &'static Converter {
         0 => &EMPTY,
         1 => &BUNDLED,
         2 => &SPANISH,
+        4 => &MINIM,
         _ => &NOMIN,
     }
 }
 
-static PARSERS: LazyLock<[CooklangParser; 4]> = LazyLock::new(|| {
+static PARSERS: LazyLock<[CooklangParser; 5]> = LazyLock::new(|| {
     [
         CooklangParser::new(Extensions::all(), EMPTY.clone()),
         CooklangParser::new(Extensions::all(), BUNDLED.clone()),
         CooklangParser::new(Extensions::all(), SPANISH.clone()),
         CooklangParser::new(Extensions::all(), NOMIN.clone()),
+        CooklangParser::new(Extensions::all(), MINIM.clone()),
     ]
 });
 
@@ -160,7 +177,7 @@ fn render(c: &Case) -> (String, Option<String>, Expect, &'static [&'static str])
     const TAG_KEYS: &[&str] = &["tags", "tag"];
     const WHO_KEYS: &[&str] = &["author", "source"];
     const LOC_KEYS: &[&str] = &["locale"];
-    let units = time_units(c.conv % 4);
+    let units = time_units(c.conv % 5);
     match &c.spec {
         Spec::Minutes { milli, as_string } => {
             let txt = fmt_milli(*milli);
@@ -193,7 +210,7 @@ fn render(c: &Case) -> (String, Option<String>, Expect, &'static [&'static str])
                 exact += *milli as u128 * secs as u128; // milli-seconds ... = 1/60000 min
             }
             let s = parts.join(" ");
-            let e = if c.conv % 4 == 3 { None } else { Some(exact) };
+            let e = if c.conv % 5 == 3 { None } else { Some(exact) };
             (yaml_quote(&s), Some(s), Expect::Minutes(e), TIME_KEYS)
         }
         // a {prep, cook} mapping belongs to `time` only: under a prep / cook key it is not a documented form
@@ -337,8 +354,8 @@ pub fn oracle(c: &Case, st: &mut Stats) -> Verdict {
         st.exclude("empty `>>` value");
         return Ok(());
     }
-    let conv = conv_of(c.conv % 4);
-    let p = &PARSERS[(c.conv % 4) as usize];
+    let conv = conv_of(c.conv % 5);
+    let p = &PARSERS[(c.conv % 5) as usize];
     let res = match guard(|| p.parse(&src)) {
         Ok(r) => r,
         Err(e) => vbail!("c13.panic.parse", "parse panicked: {e}; source {src:?}"),
@@ -383,9 +400,9 @@ pub fn oracle(c: &Case, st: &mut Stats) -> Verdict {
         Spec::NameUrl(_) | Spec::NameUrlMore(_) | Spec::BadNameUrl(_) => "author/source",
         _ => "locale",
     });
-    st.class(["empty converter", "bundled converter", "renamed-units converter", "converter without a minutes unit"][(c.conv % 4) as usize]);
+    st.class(["empty converter", "bundled converter", "renamed-units converter", "converter without a minutes unit", "renamed-units converter where `min` is a volume"][(c.conv % 5) as usize]);
     st.class(if old_style { "`>>` entry" } else { "front matter" });
-    st.nontrivial(&(src.as_str(), c.conv % 4));
+    st.nontrivial(&(src.as_str(), c.conv % 5));
 
     macro_rules! agree {
         ($got:expr, $what:expr) => {
@@ -395,7 +412,7 @@ pub fn oracle(c: &Case, st: &mut Stats) -> Verdict {
                 "{}: the parser gave {unsupported} unsupported-value warning(s) but the accessor returned {:?}; converter {}; source {src:?}",
                 $what,
                 $got,
-                c.conv % 4
+                c.conv % 5
             );
         };
     }
@@ -418,14 +435,14 @@ pub fn oracle(c: &Case, st: &mut Stats) -> Verdict {
             match e {
                 Some(exact) if exact <= (u32::MAX as u128) * 60000 + 29999 => {
                     let Some(g) = got else {
-                        vbail!("c13.documented-form-refused", "documented duration refused (converter {}); source {src:?}", c.conv % 4);
+                        vbail!("c13.documented-form-refused", "documented duration refused (converter {}); source {src:?}", c.conv % 5);
                     };
                     vensure!(
                         minutes_ok(g, exact),
                         "c13.wrong-minutes",
                         "duration reads as {g} minutes, exact value {} minutes (converter {}); source {src:?}",
                         exact as f64 / 60000.0,
-                        c.conv % 4
+                        c.conv % 5
                     );
                 }
                 Some(exact) => {
@@ -539,7 +556,7 @@ pub fn run(tier: Tier) -> i32 {
             &mut run,
             "values",
             "one standard key (time, prep time, cook time, servings, tags, author, source, locale and their aliases) with a generated value of a documented form (minutes, HhMm, 1-3 number-unit pairs in the converter's time units up to 2^33 hours, servings numbers/strings/lists, tag strings/lists, the documented name/URL forms, locales) or an undocumented one, written as `>>` entry or YAML, under the empty, bundled, a renamed-units converter and a converter without a minutes unit (where number-unit pairs are written in length units and must be refused); oracle: exact rational minutes, documented reading tables, and `warning <=> accessor returns None`; distinct = distinct (source, converter)",
-            || (spec(), any::<u8>(), any::<bool>(), 0u8..4).prop_map(|(spec, key_variant, old_style, conv)| Case { spec, key_variant, old_style, conv }),
+            || (spec(), any::<u8>(), any::<bool>(), 0u8..5).prop_map(|(spec, key_variant, old_style, conv)| Case { spec, key_variant, old_style, conv }),
             tier.pick(120_000, 6_000_000),
             |c: &Case, st| {
                 st.sample(|| json!({"case": format!("{c:?}")}));
